@@ -1,6 +1,7 @@
 package main
 
 import (
+	"golang.org/x/tools/go/ssa"
 	"fmt"
 	"sort"
 	"strings"
@@ -63,5 +64,31 @@ func init() {
 		fl := la.per[fn]
 		fmt.Printf("summary acqMust=%s acqMay=%s relMust=%s relMay=%s\n", fl.summary.acqMust.names(), fl.summary.acqMay.names(), fl.summary.relMust.names(), fl.summary.relMay.names())
 		fmt.Printf("atRet acqMust=%s acqMay=%s\n", fl.atRet.acqMust.names(), fl.atRet.acqMay.names())
+	}
+}
+
+func init() {
+	debugHooks["panics"] = func(c *Ctx, arg string) {
+		var m map[*ssa.Function][]string
+		switch arg {
+		case "run":
+			m = c.Scopes().run
+		case "prepare":
+			m = c.Scopes().prepare
+		default:
+			m = c.Scopes().parse
+		}
+		for _, fn := range c.sortedFns(m) {
+			eachInstr(fn, func(r instrRef) {
+				switch x := r.I.(type) {
+				case *ssa.Panic:
+					fmt.Printf("panic   %s @%s msg=%q\n", c.fnName(fn), c.instrPos(x), panicMessage(x))
+				case *ssa.TypeAssert:
+					if !x.CommaOk {
+						fmt.Printf("assert  %s @%s .(%s) on %s\n", c.fnName(fn), c.instrPos(x), shortType(x.AssertedType), valueOrigin(x.X))
+					}
+				}
+			})
+		}
 	}
 }
